@@ -27,6 +27,7 @@ import (
 	"sort"
 	"strconv"
 	"strings"
+	"reflect"
 	"sync"
 	"sync/atomic"
 	"time"
@@ -48,6 +49,7 @@ type cOp struct {
 	Src  string   `json:"src"`
 	F    int      `json:"f"` // 1-based index into the header's filter list
 	Into int      `json:"into"`
+	Reps int      `json:"reps"` // hot mode: the operation is made this many times in a row (0/1 = once)
 }
 
 type cFilter struct {
@@ -684,6 +686,14 @@ func runFree(u *cUniverse, seg *cSegment, nslots int, timeout time.Duration) boo
 				}
 				rec.evs = append(rec.evs, opEvent("Start", g+1, i+1, c, keys))
 				rep, made := u.exec(c, reg, mine[g])
+				// repetitions of the same call (hot mode): every reply that differs from the first is recorded too
+				var others []cReply
+				for k := 1; k < c.Reps; k++ {
+					r2, _ := u.exec(c, reg, mine[g])
+					if len(others) < 3 && !reflect.DeepEqual(r2, rep) {
+						others = append(others, r2)
+					}
+				}
 				if c.Op == "Filter" && made != nil {
 					slots[c.Into].Store(&made) // handed out cold: the first uses by this and by other goroutines are concurrent
 					u.filterReply(&rep, made)
@@ -691,6 +701,11 @@ func runFree(u *cUniverse, seg *cSegment, nslots int, timeout time.Duration) boo
 				e := rep.event(opEvent("End", g+1, i+1, c, keys))
 				e["ran"], e["cons"], e["regd"], e["locked"], e["gated"] = []int{}, []int{}, []int{}, 0, false
 				rec.evs = append(rec.evs, e)
+				for _, r2 := range others {
+					e2 := r2.event(opEvent("Rep", g+1, i+1, c, keys))
+					e2["ran"], e2["cons"], e2["regd"], e2["locked"], e2["gated"] = []int{}, []int{}, []int{}, 0, false
+					rec.evs = append(rec.evs, e2)
+				}
 			}
 		}(g)
 	}
@@ -991,6 +1006,129 @@ func cmdConcurrent(args []string) {
 			ids = append(ids, o.ID)
 		}
 		sum["objects"] = ids
+	case "hot":
+		// Tight loops: all goroutines lint, again and again, a few objects that DIFFER in what a small block of lints says about
+		// them, through one narrow registry (a block of 12 lint names) handed out cold by goroutine 1.  A helper shared by the
+		// lints of the block (a memo, a scratch value) is then hit by several goroutines at nearly the same instant with
+		// different inputs - the interleavings a run of the whole registry is too coarse to reach.  Replies are compared with the
+		// same call made alone, by the trace specification, like in free mode.
+		u := newUniverse(lint.GlobalRegistry(), rng)
+		block, ng, reps, nobj := 12, 8, 120, 6
+		if tier == "thorough" {
+			ng, reps, nobj = 16, 400, 8
+		}
+		if v, err := strconv.Atoi(os.Getenv("VERIF_HOT_BLOCK")); err == nil && v > 0 {
+			block = v
+		}
+		if v, err := strconv.Atoi(os.Getenv("VERIF_HOT_REPS")); err == nil && v > 0 {
+			reps = v
+		}
+		var chunkF []int
+		var chunkNames [][]string
+		for _, k := range []string{"cert", "crl"} {
+			var ns []string
+			for _, r := range u.order[k] {
+				ns = append(ns, u.names[r-1])
+			}
+			sort.Strings(ns)
+			for i := 0; i < len(ns); i += block {
+				j := i + block
+				if j > len(ns) {
+					j = len(ns)
+				}
+				pick := append([]string{}, ns[i:j]...)
+				u.filters = append(u.filters, cFilter{opts: lint.FilterOptions{IncludeNames: pick},
+					desc: ev.M{"xs": []string{}, "is": []string{}, "nf": false, "nfMatch": []int{}, "xx": []int{}, "ix": u.ranks(pick)}})
+				chunkF = append(chunkF, len(u.filters))
+				chunkNames = append(chunkNames, pick)
+			}
+		}
+		w.Emit(u.header())
+		// one sequential pass of the whole registry over the corpus: which objects differ on which block
+		all := []*Target{}
+		for _, o := range c.Certs {
+			all = append(all, fromObj(o))
+		}
+		for _, o := range c.CRLs {
+			all = append(all, fromObj(o))
+		}
+		vec := make([]map[string]string, len(all))
+		for i, t := range all {
+			vec[i] = map[string]string{}
+			if rs, esc, hung := runSet(t, u.base); rs != nil && esc == "" && !hung {
+				for n, r := range rs.Results {
+					if r != nil {
+						vec[i][n] = fmt.Sprintf("%d.%s", int(r.Status), ev.Dg(r.Details))
+					}
+				}
+			}
+		}
+		perm := rng.Perm(len(all))
+		var segs []*cSegment
+		for ci, f := range chunkF {
+			kind := u.kind[u.rank[chunkNames[ci][0]]-1]
+			type cand struct {
+				i, judged int
+			}
+			byKey := map[string]cand{}
+			for _, i := range perm {
+				if all[i].Kind != kind {
+					continue
+				}
+				key, judged := "", 0
+				for _, n := range chunkNames[ci] {
+					v := vec[i][n]
+					key += v + "|"
+					if !strings.HasPrefix(v, "1.") && !strings.HasPrefix(v, "2.") && v != "" {
+						judged++
+					}
+				}
+				if _, ok := byKey[key]; !ok {
+					byKey[key] = cand{i, judged}
+				}
+			}
+			var cands []cand
+			for _, cd := range byKey {
+				cands = append(cands, cd)
+			}
+			sort.Slice(cands, func(a, b int) bool {
+				if cands[a].judged != cands[b].judged {
+					return cands[a].judged > cands[b].judged
+				}
+				return cands[a].i < cands[b].i
+			})
+			if len(cands) < 2 {
+				continue // every object gets the same answers from this block: nothing to mix up
+			}
+			if len(cands) > nobj {
+				cands = cands[:nobj]
+			}
+			objs := []*Target{}
+			for _, cd := range cands {
+				objs = append(objs, all[cd.i])
+			}
+			progs := make([][]cOp, ng)
+			for g := 0; g < ng; g++ {
+				if g == 0 {
+					progs[g] = append(progs[g], cOp{Op: "Filter", R: 0, F: f, Into: 1})
+				}
+				for k := range objs {
+					o := 1 + (k+g)%len(objs)
+					progs[g] = append(progs[g], cOp{Op: "Lint", O: o, K: kind, R: 1, Reps: reps})
+				}
+			}
+			seg := &cSegment{mode: "hot", progs: progs, objs: objs, info: ev.M{"block": chunkNames[ci][0] + " .. " + chunkNames[ci][len(chunkNames[ci])-1], "objects": len(objs), "reps": reps, "gomaxprocs": runtime.GOMAXPROCS(0)}}
+			if !runFree(u, seg, 1, 120*time.Second) {
+				sum["hung"] = sum["hung"].(int) + 1
+			}
+			segs = append(segs, seg)
+		}
+		calls := 0
+		for _, seg := range segs {
+			emit(u, seg, 1, aloneEvents(u, seg))
+			calls += len(seg.objs) * len(seg.progs) * reps
+		}
+		sum["hot_calls"], sum["hot_blocks"] = calls, len(segs)
 	case "gated":
 		scheds := loadSchedules(os.Getenv("VERIF_EXPORT"))
 		if len(scheds) == 0 {
@@ -1085,7 +1223,7 @@ func cmdConcurrent(args []string) {
 			emit(u, d.seg, d.nslots, aloneEvents(u, d.seg))
 		}
 	default:
-		fmt.Fprintln(os.Stderr, "VERIF_MODE must be gated or free")
+		fmt.Fprintln(os.Stderr, "VERIF_MODE must be gated, free or hot")
 		os.Exit(2)
 	}
 	sum["events"] = w.N
